@@ -323,6 +323,10 @@ func replayInput(path string) (*History, []Op, error) {
 }
 
 func main() {
+	if spec := os.Getenv("ENG_DEEP_CHILD"); spec != "" {
+		deepChild(spec) // child process of the deep-expression probe (deep.go)
+		return
+	}
 	o := hx.ParseOpts()
 	prop := o.Prop
 	if prop == "" {
@@ -490,6 +494,9 @@ func main() {
 	if prop == "C05" && !hung {
 		// the payload-length clause on action types outside the modelled fragment (direct oracle only)
 		payloadStream(rnd.Fork("payload"), o.Count(300, 6000), res)
+	}
+	if prop == "C05" && !hung && o.Replay == "" {
+		deepProbe(prop, res)
 	}
 	if (prop == "C05" || prop == "C10") && !hung {
 		// definitions outside the modelled fragment: flow types changed between sprints, odd reference lists
